@@ -2817,6 +2817,14 @@ impl RaftNode {
 
         let entry = LogEntry::codebook(term, index, CodebookChange::replace(snapshot));
         persistent.log.push(entry);
+
+        // Persist to WAL if enabled, exactly like `propose`: an entry the leader counts
+        // as stored on itself must survive the leader's own restart
+        if let Err(e) = self.persist_log_entry(&persistent.log[persistent.log.len() - 1]) {
+            persistent.log.pop(); // Rollback on failure
+            return Err(e);
+        }
+
         drop(persistent);
 
         Ok(index)
